@@ -50,7 +50,7 @@ VARIABLES
     pieces,   \* the same memory as granted by the OS, request by request (never merged)
     live,     \* set of live blocks [id, addr, size, align]
     call,     \* the allocator call in progress (NoCall between calls)
-    holes,    \* C04: extents [addr, size] of freed blocks near which nothing has been placed since
+    holes,    \* C04: extents [addr, size] of freed blocks with the live blocks that were near them (nbrs)
     plive,    \* C04: padded demand of the live blocks (sum of Pad over live)
     peak,     \* C04: peak padded demand so far
     reps,     \* C04: per repetition [mark |-> footprint at its end (all blocks freed),
@@ -122,9 +122,15 @@ Fits(size, align) == \E p \in pieces : MaxGap(p) >= Need(size, align)
 \* block (header, padding) is still unused as well.  Only for requests of the alignment every block
 \* gets anyway (an over-aligned request needs room to slide).
 BaseAlign == 16
-HoleGuard == 128
+HoleGuard == 256
 HoleWindow(h) == Iv(h.addr - HoleGuard, h.addr + h.size + HoleGuard)
-FitsHole(size, align) == align <= BaseAlign /\ \E h \in holes : h.size >= size
+\* a hole stays usable as long as every live block near it is one that was already there, unchanged,
+\* when the hole's block was freed (h.nbrs): blocks placed into the hole and freed again give the space
+\* back (the allocator coalesces), a block that is still there or a neighbour that grew does not
+FitsHole(size, align) ==
+    /\ align <= BaseAlign
+    /\ \E h \in holes : /\ h.size >= size
+                        /\ {b \in live : Overlaps(BlockIv(b), HoleWindow(h))} \subseteq h.nbrs
 \* an OS request made by the call in progress although its request fits into held free space
 Gratuitous == /\ call.op \in AllocOps \cup {"realloc"}
               /\ call.size < DirectMap
@@ -215,13 +221,14 @@ RetEff(addr, content, zero, prefix) ==
                     ELSE IF call.op = "free" THEN plive - SumPad(old)
                     ELSE IF null THEN plive
                     ELSE plive - SumPad(old) + SumPad(new)
-        /\ holes' = LET put  == IF null \/ call.op = "free" THEN {} ELSE new
-                          kept == {h \in holes : \A b \in put : ~Overlaps(BlockIv(b), HoleWindow(h))}
+        /\ holes' = LET kept == holes
                           \* (not when the free itself handed memory back to the OS: what is left around
                           \* the extent may then be too little - found by TLC on DlHeapMC: block freed into
                           \* top, top trimmed below the old chunk's size)
                           add  == IF call.op = "free" /\ HoleCap > 0 /\ call.nos = 0
-                                  THEN {[addr |-> b.addr, size |-> b.size] : b \in old} ELSE {}
+                                  THEN {[addr |-> b.addr, size |-> b.size,
+                                         nbrs |-> {c \in live \ old : Overlaps(BlockIv(c), HoleWindow(b))}] : b \in old}
+                                  ELSE {}
                       IN  IF Cardinality(kept \cup add) > HoleCap THEN add ELSE kept \cup add
         /\ call' = NoCall
         /\ UNCHANGED <<mapped, pieces, peak, reps, hw, base>>
